@@ -227,8 +227,24 @@ def check_history(line, real, want):
                     why = reasons_to_run(tr, n, before_files, stamped)
                     counted["reason_checked"] = counted.get("reason_checked", 0) + 1
                     if not why:
+                        # shape of known finding F26: n ran only because a checksummed dependency d was rebuilt (unchanged)
+                        # in the second, non-out-of-band step, d itself having a checksummed dependency that was rebuilt
+                        def below(x, seen=()):
+                            m_ = tr.memo.get(x)
+                            out_ = []
+                            if m_ and x not in seen:
+                                for y in m_["deps"]:
+                                    out_.append(y)
+                                    out_ += below(y, seen + (x,))
+                            return out_
+                        nested = False
+                        m_n = tr.memo.get(n) or {"deps": {}}
+                        for d in m_n["deps"]:
+                            if d in stamped and d in trace and any(x in stamped and x in trace for x in below(d)):
+                                nested = True
                         fails.append({"oracle": "redo-ifchange ran a script although none of its inputs changed (over-build)", "step": i,
-                                      "cmd": " ".join(t), "target": n, "trace": trace, "memo": str(tr.memo.get(n))})
+                                      "cmd": " ".join(t), "target": n, "trace": trace, "memo": str(tr.memo.get(n)),
+                                      "known_class": "nested_checksum_overbuild" if nested else None})
             # refresh memos of what was built successfully, and the failure set
             for n in dict.fromkeys(trace):
                 rl = tr.rule_for(n)
